@@ -959,7 +959,17 @@ func handler(w http.ResponseWriter, r *http.Request) {
 	st, sz, fr, nw, fl, d := geti("st"), geti("sz"), q.Get("fr"), geti("w"), q.Get("fl") == "1", geti("d")
 	hlogAdd(cid, rid)
 	inflEnter(cid)
-	defer inflLeave(cid)
+	// "in flight" ends before the write that may complete the response on the wire: once the client has the whole
+	// response it may rightly send its next request (on another connection of a pool, too), and a handler goroutine that
+	// is descheduled between that write and its return must not count as overlapping with the next one
+	left := false
+	leave := func() {
+		if !left {
+			left = true
+			inflLeave(cid)
+		}
+	}
+	defer leave()
 	if n := geti("sb"); n > 0 {
 		if c, _ := srvNbio(r.RemoteAddr); c != nil {
 			if wb, ok := c.(interface{ SetWriteBuffer(int) error }); ok {
@@ -1023,6 +1033,9 @@ func handler(w http.ResponseWriter, r *http.Request) {
 		end := len(body)
 		if i < len(cuts) {
 			end = cuts[i]
+		}
+		if i == len(cuts) {
+			leave()
 		}
 		if end > prev {
 			_, _ = w.Write(body[prev:end])
@@ -2261,6 +2274,13 @@ func tlsTrackReset(on bool) {
 // degraded: set once a case of this process has reported an oracle failure
 var degraded bool
 
+func setDegraded() {
+	degraded = true
+	if ioTimeout > 5*time.Second {
+		ioTimeout = 5 * time.Second
+	}
+}
+
 // maxAttempts: re-runs of a case whose only failures are of the timing kind
 var maxAttempts = 2
 
@@ -2663,6 +2683,7 @@ func runPoolCase(e *lp.Exec, lines []string) {
 		}
 		out := buf.Bytes()
 		if failed {
+			setDegraded()
 			note := " " + envMon.describe(mk)
 			var b bytes.Buffer
 			for _, l := range strings.SplitAfter(buf.String(), "\n") {
@@ -2698,6 +2719,19 @@ func runPoolOnce(e *lp.Exec, lines []string) (string, bool) {
 	var waiting []*poolGet
 	nreq := 0
 	settle := 40 * time.Millisecond
+	// generous waits cost time only on a failing tree — and there only until the first report (of this case or of an
+	// earlier case of this process): after that the verdict is in and the remaining waits are short
+	bad := degraded
+	oracle := func(format string, a ...interface{}) {
+		bad = true
+		e.Oracle("c10-client-pool", format, a...)
+	}
+	patience := func(long, short time.Duration) time.Duration {
+		if bad {
+			return short
+		}
+		return long
+	}
 	idOf := func(hc *nbhttp.ClientConn) (int, int) {
 		if id, ok := ids[hc]; ok {
 			return id, 0
@@ -2741,7 +2775,7 @@ func runPoolOnce(e *lp.Exec, lines []string) (string, bool) {
 						default:
 							isBlocked = true
 						}
-					} else if time.Since(t0) < 5*time.Second {
+					} else if time.Since(t0) < patience(5*time.Second, time.Second) {
 						continue
 					} else {
 						isBlocked = true
@@ -2760,7 +2794,7 @@ func runPoolOnce(e *lp.Exec, lines []string) (string, bool) {
 			}
 			id, isNew := idOf(g.hc)
 			if busy[id] {
-				e.Oracle("c10-client-pool", "ClientConn %d handed to request %d while it is still in use", id, g.r)
+				oracle("ClientConn %d handed to request %d while it is still in use", id, g.r)
 			}
 			busy[id] = true
 			e.P("got c=%d new=%d reset=%d", id, isNew, b2i(g.reset))
@@ -2779,7 +2813,7 @@ func runPoolOnce(e *lp.Exec, lines []string) (string, bool) {
 			// whichever blocked request the runtime wakes (with one waiter — all the generator produces — it is the oldest)
 			var w *poolGet
 			wi := -1
-			for t0 := time.Now(); w == nil && time.Since(t0) < 30*time.Second; {
+			for t0, lim := time.Now(), patience(30*time.Second, 2*time.Second); w == nil && time.Since(t0) < lim; {
 				for k, x := range waiting {
 					select {
 					case <-x.done:
@@ -2795,7 +2829,7 @@ func runPoolOnce(e *lp.Exec, lines []string) (string, bool) {
 				}
 			}
 			if w == nil {
-				e.Oracle("c10-client-pool", "%d requests still blocked 30 s after ClientConn %d was released", len(waiting), id)
+				oracle("%d requests still blocked after ClientConn %d was released", len(waiting), id)
 				e.P("ok handoff=stuck")
 				continue
 			}
@@ -2806,7 +2840,7 @@ func runPoolOnce(e *lp.Exec, lines []string) (string, bool) {
 			}
 			wid, _ := idOf(w.hc)
 			if busy[wid] {
-				e.Oracle("c10-client-pool", "ClientConn %d handed to request %d while it is still in use", wid, w.r)
+				oracle("ClientConn %d handed to request %d while it is still in use", wid, w.r)
 			}
 			busy[wid] = true
 			e.P("ok handoff=%d:%d:%d", w.r, wid, b2i(w.reset))
@@ -2832,7 +2866,7 @@ func runPoolOnce(e *lp.Exec, lines []string) (string, bool) {
 				} else {
 					e.P("unexpected-conn r=%d", w.r)
 				}
-			case <-time.After(time.Duration(tmo)*time.Millisecond + 20*time.Second):
+			case <-time.After(time.Duration(tmo)*time.Millisecond + patience(20*time.Second, 2*time.Second)):
 				// one-sided: the margin costs time only when the request really stays blocked; and a last look at the
 				// channel — a clock jump fires both timers at once
 				time.Sleep(200 * time.Millisecond)
@@ -2845,7 +2879,7 @@ func runPoolOnce(e *lp.Exec, lines []string) (string, bool) {
 						e.P("unexpected-conn r=%d", w.r)
 					}
 				default:
-					e.Oracle("c10-client-pool", "blocked request %d did not time out", w.r)
+					oracle("blocked request %d did not time out", w.r)
 					e.P("stuck r=%d", w.r)
 				}
 			}
@@ -2861,7 +2895,7 @@ func runPoolOnce(e *lp.Exec, lines []string) (string, bool) {
 				ws = append(ws, strconv.Itoa(w.r))
 			}
 			if cn > max || free+len(bs) != cn || conns != cn {
-				e.Oracle("c10-client-pool", "bookkeeping broken: connNum=%d max=%d free=%d in use=%d conns map=%d", cn, max, free, len(bs), conns)
+				oracle("bookkeeping broken: connNum=%d max=%d free=%d in use=%d conns map=%d", cn, max, free, len(bs), conns)
 			}
 			e.P("state count=%d idle=%d busy=%s waiting=%s", cn, free, joinInts(bs), strings.Join(append(ws, "-"), ","))
 		default:
@@ -3023,10 +3057,7 @@ func runCase(e *lp.Exec, lines []string) {
 			if !degraded && !strings.Contains(f, " class=") { // classified reports are the recorded known findings
 				// On a tree that fails, the remaining cases of this process are still run and reported, but a stall
 				// no longer costs 3 x 25 s per case: the verdict is in, the rest is detail.
-				degraded = true
-				if ioTimeout > 5*time.Second {
-					ioTimeout = 5 * time.Second
-				}
+				setDegraded()
 			}
 		}
 	}
